@@ -16,6 +16,9 @@ Z3_DECIDE_MS = int(os.environ.get('PYVC_DECIDE_MS', '3000'))
 BASELINE = set()       # names of obligations discharged on the unchanged tree (set by the driver from baseline-obligations.txt)
 
 
+FORKS = None       # debugging aid: {condition text: number of two-way forks} when set to a dict
+
+
 class Raised(Exception):
     """a python exception in flight in the interpreted program (A8)"""
     def __init__(self, cls, payload=None, where=None):
@@ -203,6 +206,8 @@ class State:
             if ft and ff:
                 c = True
                 self.choices.append((True, False))
+                if FORKS is not None:
+                    FORKS[str(cond)[:100]] = FORKS.get(str(cond)[:100], 0) + 1
             elif ft:
                 c = True
                 self.choices.append((True, True))
